@@ -32,7 +32,18 @@ was found is in `AsFound.lean` (same state, same API functions, only the dispatc
   fails with EBADF and the loop runs `removeInvalidFds` instead of a dispatch (`Step.badfPass`);
   the ghost flag `breach` records that this happened — only the theorem "a callback is on the
   same open file the kernel reported on" needs it clear;
-* the pool keeps at most `poolKeep` = 64 parked blocks.
+* the pool keeps at most `poolKeep` = 64 parked blocks;
+* `lim` is FD_SETSIZE in the numbering of the descriptors (0 = the back-end has no such limit: epoll).
+  `SelectFdEvent::initialize` refuses a descriptor `>= FD_SETSIZE` (patch 07: `FD_SET` on it would write
+  outside the `fd_set`), so no record of the select back-end ever has such a key (`Inv.lim`);
+* one turn of `runLoop()` is `loopPass` (both engines have the same order): the wait returns and
+  `wait_serial_` is taken, `handleExpiredTimers()` runs the callbacks of the due timers, the ready
+  descriptors are dispatched (or `removeInvalidFds` after EBADF), `handleNextFunc()` runs the batch of
+  deferred tasks.  Timer callbacks and deferred tasks are scripts like the descriptor callbacks.  The
+  timer heap and the deferred queue are not part of this state (C02 / C01 are about them): WHICH
+  timers are due and which tasks are in the batch is an oracle input of the step, the theorems hold
+  for every such input; `arm k` / `post k` (enable the one-shot timer of callable `k`, `runNext` it)
+  therefore change nothing here — the trace acceptor (Driver/C03.lean) keeps the two queues.
 -/
 namespace Tbox.C03
 
@@ -50,6 +61,8 @@ inductive Act where
   | setW (f : Nat) (b : Bool)                -- make f writable / fill its send buffer
   | oob (f : Nat)                            -- the peer sends one byte of out-of-band data (except condition)
   | kill (f : Nat)                           -- close(f), the number stays unused until a later `close f` reopens it
+  | arm (k : Nat)                            -- enable the one-shot timer that runs callable k (due in the next pass)
+  | post (k : Nat)                           -- loop->runNext(callable k)
 deriving DecidableEq, Repr
 
 structure Ev where
@@ -115,6 +128,7 @@ structure State where
   isOpen   : Nat → Bool := fun _ => true    -- the descriptor number currently names an open file
   breach   : Bool := false                  -- ghost: some descriptor was closed while an event object still referred to it
   serial   : Nat := 0
+  lim      : Nat := 0                       -- FD_SETSIZE in descriptor numbering; 0 = no limit (epoll)
   freeList : List Nat := []       -- parked pool blocks, head = next to be reused
   nBlocks  : Nat := 0
   log      : List Out := []       -- newest first
@@ -188,6 +202,7 @@ def initEv (s : State) (e f mask : Nat) (one : Bool) : State × Bool :=
   let v := s.evs e
   if !v.alive then (s, false)
   else if v.enabled then (s, false)
+  else if s.lim != 0 && s.lim ≤ f then (s, false)      -- select: fd >= FD_SETSIZE is refused (patch 07)
   else
     let s1 := if v.inited && v.fd == f then s
               else attach (if v.inited then detach s e else s) e f
@@ -258,6 +273,8 @@ def act (s : State) : Act → State × Bool
   | .setR f b => setReady s f (some b) none false
   | .setW f b => setReady s f none (some b) false
   | .oob f => setReady s f none none true
+  | .arm _ => (s, true)
+  | .post _ => (s, true)
 
 def runScript (s : State) : List Act → State
   | [] => s
@@ -316,6 +333,19 @@ def waitOf (s : State) (ready : List (Nat × Nat)) : Wait := { serial := s.seria
 def pass (s : State) (ready : List (Nat × Nat)) : State :=
   ready.foldl (dispatchFd (waitOf s ready)) s
 
+/-- `handleExpiredTimers()` / `handleNextFunc()`: the callbacks run one after the other -/
+def runScripts (s : State) (scs : List (List Act)) : State := scs.foldl runScript s
+
+/-- **one turn of `runLoop()`**, transcribed from `EpollLoop::runLoop` / `SelectLoop::runLoop`:
+`epoll_wait`/`select` returns `ready`; `wait_serial_ = fd_data_serial_` (the snapshot is taken HERE,
+before any callback of this turn); `handleExpiredTimers()`; the dispatch of the ready entries;
+`handleNextFunc()` -/
+def loopPass (s : State) (tms : List (List Act)) (ready : List (Nat × Nat)) (nx : List (List Act)) : State :=
+  let w := waitOf s ready
+  let s1 := runScripts s tms
+  let s2 := ready.foldl (dispatchFd w) s1
+  runScripts s2 nx
+
 def actualMask (s : State) (f : Nat) : Nat :=
   if s.isOpen f then
     (if s.readable f then 1 else 0) + (if s.writable f then 2 else 0) + (if s.urgent f then 4 else 0)
@@ -345,6 +375,11 @@ inductive Step where
   | api (a : Act)                      -- API call made outside any callback
   | pass (be : Backend) (ready : List (Nat × Nat))
   | badfPass (fds : List Nat)          -- select returned EBADF: `removeInvalidFds` (the closed descriptors with a record)
+  | loop (be : Backend) (tms : List (List Act)) (ready : List (Nat × Nat)) (nx : List (List Act))
+                                       -- one whole turn: wait → due timers → dispatch → deferred batch
+  | loopBadf (trig : List Nat) (tms : List (List Act)) (fds : List Nat) (nx : List (List Act))
+                                       -- the same turn when select failed with EBADF: wait → due timers → removeInvalidFds → deferred batch
+  | defer (nx : List (List Act))       -- the rest of a deferred batch (tasks queued behind the one that made the API calls)
 deriving Repr
 
 /-- deleting an event from inside its own callback is outside the property (the code asserts it) -/
@@ -361,23 +396,36 @@ def removeInvalid (s : State) (fds : List Nat) : State :=
 def badfTrigger (s : State) (fds : List Nat) : Bool :=
   fds.any (fun f => !s.isOpen f && interest .select s f != 0)
 
+/-- the EBADF turn: `IsFdValid` is asked when `removeInvalidFds` runs, i.e. after the timer callbacks -/
+def loopBadf (s : State) (tms : List (List Act)) (fds : List Nat) (nx : List (List Act)) : State :=
+  runScripts (removeInvalid (runScripts s tms) fds) nx
+
 def valid (s : State) : Step → Bool
   | .newEv sc => noSelfDestroy s.nEv sc
   | .api _ => true
   | .pass be r => validReady be s r
   | .badfPass fds => badfTrigger s fds && fds.all (fun f => !s.isOpen f)
+  | .loop be _ r _ => validReady be s r                 -- the kernel answers for the state at the wait
+  | .loopBadf trig tms fds _ => badfTrigger s trig && fds.all (fun f => !(runScripts s tms).isOpen f)
+  | .defer _ => true
 
 def step (s : State) : Step → State
   | .newEv sc => { s.setEv s.nEv { alive := true, script := sc } with nEv := s.nEv + 1 }
   | .api a => (act s a).1
   | .pass _ r => pass s r
   | .badfPass fds => removeInvalid s fds
+  | .loop _ tms r nx => loopPass s tms r nx
+  | .loopBadf _ tms fds nx => loopBadf s tms fds nx
+  | .defer nx => runScripts s nx
 
 def exec (s : State) : List Step → Option State
   | [] => some s
   | st :: sts => if valid s st then exec (step s st) sts else none
 
 def init : State := {}
+
+/-- the initial state of a loop whose back-end has `FD_SETSIZE = L` (`L = 0`: no limit, epoll) -/
+def initL (L : Nat) : State := { lim := L }
 
 /-- the callbacks made so far, newest first: (event, readiness mask handed over) -/
 def cbKeys (s : State) : List (Nat × Nat) :=
@@ -392,6 +440,8 @@ def localAct (s : State) (f : Nat) : Act → Bool
   | .setR _ _ => true
   | .setW _ _ => true
   | .oob _ => true
+  | .arm _ => true
+  | .post _ => true
   | _ => false
 
 /-- every subscriber of descriptor `f` has a script of local actions only -/
